@@ -226,6 +226,9 @@ def run(ctx):
     r_guard_interval(ctx, ad, "prob", 0, 1)
     r_guard_interval(ctx, pd, "gamma", 0, 1)
     r_guard_interval(ctx, bf, "prob", 0, 1)
+    ctx.rule("R-SIB", "direct / Kraus forms of the built-in qubit channels agree as polynomial identities in the parameters and the entries of a generic input")
+    for f, prm in ((ad, {"gamma", "prob"}), (pd, {"gamma"}), (bf, {"prob"})):
+        _symbolic_qubit_channel(ctx, f, prm)
     for f in (ad, pd, bf):
         _apply_form(ctx, f)
         _input_2x2(ctx, f)
@@ -295,6 +298,57 @@ def run(ctx):
                 ok_b = b[0][0] == "*" and ("n", "param_p") in b[0][1] and "neg" not in repr([x for x in b[0][1] if x[0] != "@"])
                 ok = ok_a and ok_b
         ctx.ob("R-PRED", dp, "Choi == (1-p) I/d + p |psi><psi|", ok, "convex mixture of completely depolarising and identity channels" if ok else f"formula {show(t)[:140]}", rn)
+
+
+def _symbolic_qubit_channel(ctx, f, params):
+    """Decide, as identities in the channel parameters and the entries of a generic 2x2 input, that the returned Kraus
+    list is complete and that the directly applied form equals sum_i K_i rho K_i^+ (engine/symmat.py)."""
+    from ..symmat import Eval, P, Unsupported, first_diff, mat_eq
+
+    m = ctx.model
+    rets, N = return_terms(m, f)
+    lists = [(rn, t) for rn, _, t in rets if t[0] == "list"]
+    direct = [(rn, t) for rn, _, t in rets if t[0] != "list" and mentions_name(t, "input_mat")]
+    if not lists:
+        ctx.ob("R-PRED", f, "returned Kraus list is complete: sum K^+ K == I (symbolic)", None, "no Kraus-list return found", required=False)
+        return
+    ev = Eval(params, "input_mat", 2)
+    try:
+        Ks = [ev.matrix(x) for x in lists[0][1][1:]]
+    except Unsupported as exc:
+        ctx.ob("R-PRED", f, "returned Kraus list is complete: sum K^+ K == I (symbolic)", None, f"Kraus operators not evaluable symbolically ({exc})", lists[0][0], required=False)
+        return
+    d = 2
+    dagK = [[[K[j][i].conj() for j in range(d)] for i in range(d)] for K in Ks]
+    mm = lambda A, B: [[sum((A[i][k] * B[k][j] for k in range(d)), P.c(0)) for j in range(d)] for i in range(d)]  # noqa: E731
+    tot = [[P.c(0)] * d for _ in range(d)]
+    for K, Kd in zip(Ks, dagK):
+        pr = mm(Kd, K)
+        tot = [[tot[i][j] + pr[i][j] for j in range(d)] for i in range(d)]
+    iden = [[P.c(1 if i == j else 0) for j in range(d)] for i in range(d)]
+    okc = mat_eq(tot, iden)
+    df = first_diff(tot, iden)
+    ctx.ob("R-PRED", f, "returned Kraus list is complete: sum K^+ K == I (symbolic)", okc,
+           f"{len(Ks)} operators, identity in {sorted(params)}" if okc else f"entry ({df[0]},{df[1]}) of sum K^+ K is {df[2]} instead of {df[3]}: the returned family is not trace preserving", lists[0][0])
+    if not direct:
+        ctx.ob("R-SIB", f, "direct application == sum K rho K^+ of the returned Kraus list (symbolic, generic 2x2 input)", None, "no direct-application return found", required=False)
+        return
+    rho = [[P.sym(f"r{i}{j}") for j in range(d)] for i in range(d)]
+    want = [[P.c(0)] * d for _ in range(d)]
+    for K, Kd in zip(Ks, dagK):
+        pr = mm(mm(K, rho), Kd)
+        want = [[want[i][j] + pr[i][j] for j in range(d)] for i in range(d)]
+    try:
+        ev2 = Eval(params, "input_mat", 2)
+        got = ev2.matrix(direct[0][1])
+    except Unsupported as exc:
+        ctx.ob("R-SIB", f, "direct application == sum K rho K^+ of the returned Kraus list (symbolic, generic 2x2 input)", None, f"direct form not evaluable symbolically ({exc})", direct[0][0], required=False)
+        return
+    oka = mat_eq(got, want)
+    df = first_diff(got, want)
+    ctx.ob("R-SIB", f, "direct application == sum K rho K^+ of the returned Kraus list (symbolic, generic 2x2 input)", oka,
+           "entrywise identical for every input and every parameter value" if oka else
+           f"entry ({df[0]},{df[1]}) of the applied channel is {df[2]} but the returned Kraus operators give {df[3]}: the direct form and the Kraus form are different maps", direct[0][0])
 
 
 def _apply_form(ctx, f):
